@@ -778,9 +778,70 @@ class SegmentsWidth0(Space):
         return Outcome(viol=viol, tags=tags, obs=hash(out))
 
 
+class SegmentsWidth(SegmentsWidth0):
+    """width > 0 on the same paragraphs: the words are those of the reference segmentation, there are at least as many lines as
+    segments, and no line is longer than the width unless it is a single atomic token (tags kept whole)."""
+
+    name = "segments-width"
+    # (an opening tag followed by its closing tag, with or without a space, is one atomic construct by design: "paired tags")
+    _ATOM = re.compile(r"\{%(?!\s*/).*?%\}\s*\{%\s*/.*?%\}|\{%.*?%\}|\{\{.*?\}\}|\{#.*?#\}|<!--.*?-->|\S+")
+
+    def __init__(self, maxn, widths):
+        super().__init__(maxn)
+        self.widths = widths
+        self.floors = {"tag-boundary": 200, "hard-break": 200, "wrapped": 500}
+
+    def cases(self):
+        for n in range(1, self.maxn + 1):
+            for ks in itertools.product(range(len(SEG_TOKENS)), repeat=n):
+                for seps in itertools.product(("sp", "nl", "hb"), repeat=n - 1):
+                    if seps.count("hb") > 1:
+                        continue
+                    for width in self.widths:
+                        for sem in (False, True):
+                            yield (ks, seps, width, sem)
+
+    def smaller(self, case):
+        ks, seps, width, sem = case
+        for c in super().smaller((ks, seps, 0, sem)):
+            if c[2] == 0 and (c[0], c[1], c[3]) != (ks, seps, sem):
+                yield (c[0], c[1], width, c[3])
+        if width > 1:
+            yield (ks, seps, width - 1, sem)
+
+    def evaluate(self, case):
+        ks, seps, width, sem = case
+        text = self._text(case)
+        segs = [s_ for s_ in seg_model(text.rstrip("\n")) if s_]
+        out = reformat_text(text, width=width, semantic=sem, cleanups=False)
+        lines = [ln for ln in out.rstrip("\n").split("\n") if ln.strip()]
+        tags = []
+        if len(segs) > 1:
+            tags.append("hard-break" if "hb" in seps else "tag-boundary")
+        if len(lines) > len(segs):
+            tags.append("wrapped")
+        viol = []
+        got = [w.lstrip("\\") for ln in lines for w in re.sub(r"\\$", "", ln).split()]
+        want = [w.lstrip("\\") for s_ in segs for w in s_]
+        if got != want:
+            viol.append(("width:words", {"input": text, "output": out}))
+        elif len(lines) < len(segs):
+            viol.append(("width:segments-joined", {"input": text, "output": out, "segments": [" ".join(x) for x in segs]}))
+        else:
+            for ln in lines:
+                body = re.sub(r"\\$", "", ln)          # the hard-break backslash is a marker, not a word
+                over = len(body) - width
+                if over > 0 and len(self._ATOM.findall(body)) > 1:
+                    if sem and over <= 1:
+                        continue                       # F1 / K-sem: the short-line merge ignores the joining space (listed under C05 sentence)
+                    viol.append(("bound:segment" + (":sem" if sem else ""), {"input": text, "output": out, "line": ln, "width": width}))
+                    break
+        return Outcome(viol=viol, tags=tags, obs=hash(out))
+
+
 def spaces(tier):
     if tier == "quick":
         return [FillCore(7, 4, 4), Markers(3, 7), Atomic(3, [0, 1, 5, 8, 9, 10, 12, 14, 20]), FillText(10, 3),
-                Sentence(3, [22, 24, 30], [(0, 0), (2, 2), (6, 4)]), DocTriples(1, 3, [0, 1, 6, 9, 12]), SegmentsWidth0(4)]
+                Sentence(3, [22, 24, 30], [(0, 0), (2, 2), (6, 4)]), DocTriples(1, 3, [0, 1, 6, 9, 12]), SegmentsWidth0(4), SegmentsWidth(4, [1, 8, 12, 17])]
     return [FillCore(8, 5, 4), Markers(4, 7), Atomic(3, [0, 1, 5, 8, 9, 10, 12, 14, 17, 20, 24, 30]), FillText(11, 4),
-            Sentence(3, [22, 24, 30, 40], [(0, 0), (2, 2), (6, 4)]), DocTriples(2, 3, [0, 1, 6, 9, 12, 20]), SegmentsWidth0(5)]
+            Sentence(3, [22, 24, 30, 40], [(0, 0), (2, 2), (6, 4)]), DocTriples(2, 3, [0, 1, 6, 9, 12, 20]), SegmentsWidth0(5), SegmentsWidth(5, [1, 5, 8, 10, 12, 14, 17, 22])]
